@@ -23,15 +23,19 @@ MC = {
     "mini33": ("mc/MC_micro.tla", "mc/MC_mini33.cfg", 8, 3000),      # 3 turns
     "mini43q": ("mc/MC_micro.tla", "mc/MC_mini43q.cfg", 6, 900),     # 4x3 + trap, 2 turns
     "mini44": ("mc/MC_micro.tla", "mc/MC_mini44.cfg", 6, 1800),      # 4x4 + trap, 2 turns
+    "hash33": ("mc/MC_hash.tla", "mc/MC_hash33.cfg", 4, 600),        # feature-set hash carried along, 3x3
+    "hashsetup": ("mc/MC_hash.tla", "mc/MC_hashsetup.cfg", 4, 900),  # all setups of a 2x5 board + first turn
 }
 
 # which S models each property runs per tier
 MC_PLAN = {
     "quick": {
         "default": ["micro22", "mini33q"],
+        "C08": ["hash33", "hashsetup"],
     },
     "thorough": {
         "default": ["micro22", "mini33", "mini43q", "mini44"],
+        "C08": ["hash33", "hashsetup", "mini33q"],
         "C05": ["micro22", "micro32", "mini33"], "C06": ["micro22", "micro32", "mini33"], "C07": ["micro22", "micro32", "mini33"],
     },
 }
@@ -160,7 +164,7 @@ def run_probe(pid, bindir, family, args, out, module, profile_tag, seed, env=Non
     rc, o = sh(cmd, 1800, env={"VERIF_REPO": vcheck.REPO})
     if rc != 0:
         raise ToolError("probe %s failed rc=%s: %s" % (family, rc, o[-2000:]))
-    r = validate_trace(out, pid, cfg="Probe.cfg", module=module, timeout=3000, xmx="6g", env=env)
+    r = validate_trace(out, pid, cfg=PROBE_CFG.get(pid, "Probe.cfg"), module=module, timeout=3000, xmx="6g", env=env)
     fails = []
     if not r["accepted"]:
         lines = read_events(out)
@@ -245,20 +249,62 @@ def c16(pid, tier, seed, workdir):
     return cov, TRUSTED[:3] + ["strings outside the 28-symbol alphabet behave like some string over it (alphabet chosen by reading the parsers)"], findings
 
 
+def c17_key(rec):
+    try:
+        r = json.loads(rec)
+        return "group cls=%s base=%s sq=%s c=%s" % (r.get("cls"), r.get("base"), r.get("sq"), r.get("c"))
+    except Exception:
+        return rec[:80]
+
+
+def c17(pid, tier, seed, workdir):
+    nb = 3 if tier == "quick" else 12
+    mc = expect_mc_ok(tlc_mc(*MC["hash33"][:2], workers=4, timeout=600, name="hash33"))
+    bindir = build_harness("release")
+    out = os.path.join(workdir, "hash.ndjson")
+    r, fails = run_probe(pid, bindir, "hash", [nb, seed], out, "HashTrace.tla", "release", seed)
+    findings = report_probe_fails(pid, fails, seed, "hash", c17_key)
+    m = __import__("re").search(r'PAIRS (\d+)', r["out"])
+    pairs = int(m.group(1)) if m else 0
+    with open(out, encoding="utf-8") as f:
+        lines = f.readlines()
+    def trim(e):
+        e = dict(e)
+        if len(e.get("th", [])) > 6:
+            e["th"] = e["th"][:6] + ["... %d in all" % len(e["th"])]
+            e["keys"] = e["keys"][:6] + ["..."]
+        e.pop("bb", None)
+        return e
+    cov = {
+        "states": mc["distinct"] + r["lines"], "transitions": mc["generated"] + r["lines"],
+        "traces_validated_against_impl": 1,
+        "evaluations": pairs, "distinct_nontrivial": pairs,
+        "rule": "every unordered pair of states differing in exactly one hashed feature: per square all 78 pairs of the 13 contents, per piece kind all pairs of "
+                "(empty) squares, the two sides, the 6 step pairs, all pairs of the 641 push/pull statuses; enumerated completely on the empty base state "
+                "(234,311 pairs) and again on %d random legal base states; states built through PieceBoard::new / Zobrist::from_piece_board / PlayPhase::new / "
+                "GameState::new; the spec checks the groups are the feature universe and that hashes are pairwise distinct; count = pairs, measured by the spec" % (nb - 1),
+        "samples": [trim(json.loads(lines[k])) for k in (0, 64, 76, 77, 78) if k < len(lines)],
+        "exhaustive": True, "bases": nb,
+    }
+    return cov, TRUSTED[:3], findings
+
+
 PROPS = {}
 PROPS["C16"] = c16
+PROPS["C17"] = c17
 for _p in ("C01", "C02", "C03", "C04", "C05", "C06", "C07", "C08", "C09", "C10", "C12", "C13", "C14", "C15", "C19"):
     PROPS[_p] = trace_property
 
 
-PROBE_MODULES = {"C16": "NotationTrace.tla"}
+PROBE_MODULES = {"C16": "NotationTrace.tla", "C17": "HashTrace.tla"}
+PROBE_CFG = {"C17": "ProbeHash.cfg"}
 
 
 def replay(pid, path):
     """Re-validate one replay file with the conjuncts of pid."""
     path = os.path.abspath(path)
     if pid in PROBE_MODULES:
-        r = validate_trace(path, pid, cfg="Probe.cfg", module=PROBE_MODULES[pid])
+        r = validate_trace(path, pid, cfg=PROBE_CFG.get(pid, "Probe.cfg"), module=PROBE_MODULES[pid])
     else:
         r = validate_trace(path, pid)
     if r["accepted"]:
